@@ -164,13 +164,16 @@ def asBytesFiat26 (a0 a1 a2 a3 a4 a5 a6 a7 a8 a9 : Int) : List Int :=
   packFiat26 f0 f1 f2 f3 f4 f5 f6 f7 f8 f9
 
 set_option maxHeartbeats 16000000 in
-/-- the generated normal form and the hand model are the same integer function -/
+/-- the generated normal form and the hand model are the same integer function.  Normalising script: inline all `let`s on
+both sides, then either the cheap normal form (`x - 0 = x`, `0 + x = x`) already makes the two sides identical (a few
+seconds), or the full commutative-ring normal form of every byte is compared (`ring_nf` over the whole list in ONE call so
+that shared subterms are normalised once; a few minutes).  Neither refers to the shape of the generated code. -/
 theorem as_bytes_fn_eq_model (a0 a1 a2 a3 a4 a5 a6 a7 a8 a9 : Int) :
     as_bytes_fn a0 a1 a2 a3 a4 a5 a6 a7 a8 a9 = asBytesFiat26 a0 a1 a2 a3 a4 a5 a6 a7 a8 a9 := by
   unfold as_bytes_fn asBytesFiat26 packFiat26
-  simp only [List.cons.injEq, and_true, pow_zero, Int.ediv_one]
-  repeat' apply And.intro
-  all_goals ring_nf
+  first
+    | (simp only [sub_zero, zero_add]; done)
+    | ring_nf
 
 /-! ### `as_bytes`: stage lemmas -/
 
